@@ -99,6 +99,10 @@ def analyse_types(pid, suite, search=True):
             continue
         if sfilter is not None and not sfilter(tmap0[l.split(' ')[2]]):
             continue
+        # definitions with a length type wider than usize (known finding wide_len, recorded under C01 / C15, outside
+        # every theorem's narrow_ty hypothesis) are left to those two properties, as in the oracles (Ctx.ops)
+        if op != 'L' and pid not in ('C01', 'C15') and shp.wide_len(tmap0[l.split(' ')[2]]):
+            continue
         cid = l.split(' ')[1]
         m, r = suite['mres'].get(cid), suite['rres'].get(cid)
         n_cmp += 1
@@ -141,10 +145,16 @@ def analyse_types(pid, suite, search=True):
     for cid, l, d in disagree:
         if cid in oracle_ids:
             continue
-        viol.append({'what': 'model and implementation differ (correspondence suite "types", projection of %s): %s'
-                             % (pid, '; '.join(d)[:600]),
-                     'case': l, 'impl': suite['rres'].get(cid), 'model': suite['mres'].get(cid),
-                     'concrete': False, 'source': 'correspondence'})
+        v = {'what': 'model and implementation differ (correspondence suite "types", projection of %s): %s'
+                     % (pid, '; '.join(d)[:600]),
+             'case': l, 'impl': suite['rres'].get(cid), 'model': suite['mres'].get(cid),
+             'concrete': False, 'source': 'correspondence'}
+        # a wide-length definition on which both sides panic, only at different moments (the model computes the
+        # capacity before the first push, the code at the first push): the listed finding wide_len
+        if pid in ('C01', 'C15') and shp.wide_len(tmap0[l.split(' ')[2]]) and 'crash:Panic' in (suite['mres'].get(cid) or '') \
+                and 'panic' in (suite['rres'].get(cid) or ''):
+            v['known_class'] = 'wide_len'
+        viol.append(v)
     coverage = {
         'evaluations': n_cmp,
         'distinct_nontrivial': len(distinct),
@@ -190,6 +200,65 @@ def run_property_types(pid, tier, seed):
                 break
         cov['neighbourhood_search'] = 'run' if sub else 'not applicable'
     return {'violations': viol, 'coverage': cov}
+
+
+# ---------------------------------------------------------------- Miri (thorough tier of C01 / C14)
+
+def run_miri(pid, tier, seed):
+    """a sample of the type-level and history cases executed by the real library under Miri (nightly, offline):
+    undefined behaviour of the library — a read or write outside the slice it was given, a misaligned or dangling
+    reference, an invalid value — stops the interpreter.  Testing, not proof: it ties the model's explicit
+    OobRead / OobWrite outcomes to what the Rust actually touches.  Quick tier: not run."""
+    if tier != 'thorough' or os.environ.get('VERIF_NO_MIRI'):
+        return {'violations': [], 'coverage': {'miri': 'not run in the quick tier'}}
+    import random
+    import subprocess
+    rng = random.Random(seed * 97 + 3)
+    ts = types_suite('quick', seed)
+    hs = hist_suite('quick', seed)
+    want = {'C01': (['V', 'M'], 260, 0), 'C14': (['E', 'A', 'D'], 160, 60)}[pid]
+    tc = [c for c in ts['cases'] if c[0] in want[0] and len(c) < 600]
+    hc = [c for c in hs['cases'] if len(c) < 900]
+    rng.shuffle(tc)
+    rng.shuffle(hc)
+    cases = tc[:want[1]] + hc[:want[2]]
+    vlib.build_harness(ts['shapes'])          # shapes_gen.rs of the quick tier (histories use the same shapes)
+    hdir = os.path.join(vlib.VERIF, 'harness')
+    env = dict(vlib.ENV, MIRIFLAGS='-Zmiri-disable-isolation -Zmiri-ignore-leaks', VERIF_NO_RAW='1', RUSTUP_TOOLCHAIN='nightly')
+    viol = []
+    done = 0
+    t0 = time.time()
+    rest = cases
+    while rest and len(viol) < 3:
+        p = subprocess.run('cargo miri run --offline --target-dir %s' % os.path.join(vlib.CACHE, 'miri-target'), cwd=hdir,
+                           shell=True, input=('\n'.join(rest) + '\n').encode(), stdout=subprocess.PIPE,
+                           stderr=subprocess.PIPE, env=env, timeout=3000)
+        out = p.stdout.decode('utf-8', 'replace').splitlines()
+        err = p.stderr.decode('utf-8', 'replace')
+        started = [l[7:] for l in out if l.startswith('#start ')]
+        finished = set(l.split(' ', 1)[0] for l in out if not l.startswith('#'))
+        done += len(finished)
+        if p.returncode == 0:
+            break
+        bad = [c for c in started if c not in finished]
+        ub = 'Undefined Behavior' in err
+        if not bad:
+            viol.append({'what': 'the Miri run could not be carried out: %s' % err.strip().splitlines()[-3:], 'case': None,
+                         'concrete': False, 'source': 'miri'})
+            break
+        cid = bad[-1]
+        line = [c for c in rest if c.split(' ')[1] == cid][0]
+        m = [l for l in err.splitlines() if 'Undefined Behavior' in l or l.lstrip().startswith('--> ')]
+        if ub:
+            viol.append({'what': 'Miri: undefined behaviour inside the library while running this case: %s' % ' '.join(m[:3])[:600],
+                         'case': line, 'impl': 'UB', 'concrete': True, 'source': 'miri'})
+        else:
+            viol.append({'what': 'Miri: the interpreter stopped in this case: %s' % err.strip().splitlines()[-2:], 'case': line,
+                         'concrete': False, 'source': 'miri'})
+        rest = rest[[c.split(' ')[1] for c in rest].index(cid) + 1:]
+    return {'violations': viol,
+            'coverage': {'miri': '%d cases executed under Miri in %.0f s (types %s, histories %d)' % (
+                done, time.time() - t0, '/'.join(want[0]), want[2])}}
 
 
 NEGATIVE_C17 = [
